@@ -14,8 +14,8 @@ import (
 	"github.com/hyperjumptech/grule-rule-engine/ast"
 	"github.com/hyperjumptech/grule-rule-engine/engine"
 	"github.com/hyperjumptech/grule-rule-engine/model"
-	verif "github.com/hyperjumptech/grule-rule-engine/zzverif"
 	"github.com/hyperjumptech/grule-rule-engine/zzkb"
+	verif "github.com/hyperjumptech/grule-rule-engine/zzverif"
 )
 
 type tbWorld struct {
@@ -646,7 +646,9 @@ func lastIndex(xs []string, s string) int {
 // VerifTierBReuse: two Execute calls on ONE instance, each with its own data context and its own symbolic facts.
 // The second call must behave like a call on a fresh instance: the memo-free oracle (C01/C02) is asserted throughout it,
 // and it must not touch the first caller's facts.
-func VerifTierBReuse(set string, maxCycle int, fetchFirst int) { verifTierBReuse(set, maxCycle, fetchFirst, 0) }
+func VerifTierBReuse(set string, maxCycle int, fetchFirst int) {
+	verifTierBReuse(set, maxCycle, fetchFirst, 0)
+}
 
 // VerifTierBReuseSameDC: the second call re-uses the SAME data context and fact objects; the host program has changed the
 // fact values in between (plain Go assignments).
